@@ -12,12 +12,13 @@ import Driver.PromiseMT
 import Driver.Emit
 import Driver.RoundTrip
 import Driver.Limits
+import Driver.Lifecycle
 
 open Drv
 
 def dispatch (line : String) : String :=
   let ws := words line
-  let ops : List (List String → Option String) := [base64Op, mimeOp, netOp, headersOp, cookieOp, parserOp, routerOp, promiseOp, queueOp, promiseMTOp, emitOp, roundTripOp, limitsOp]
+  let ops : List (List String → Option String) := [base64Op, mimeOp, netOp, headersOp, cookieOp, parserOp, routerOp, promiseOp, queueOp, promiseMTOp, emitOp, roundTripOp, limitsOp, lifeOp]
   match ops.findSome? (fun f => f ws) with
   | some r => r
   | none => "bad-op"
